@@ -214,6 +214,13 @@ func genLedgerWith(b ledgerBias) func(r *prng, seed uint64, tier string) *Plan {
 				if r.Chance(0.3) {
 					st.K = 1 + r.Intn(cfg.Nodes)
 				}
+				// the rules hold for every kind of transaction: transfers, contracts, contracts that also move spice
+				switch r.Intn(3) {
+				case 0:
+					st.Data, st.Cur = 1+r.Intn(40), 0
+				case 1:
+					st.Data = 1 + r.Intn(40)
+				}
 				p.Steps = append(p.Steps, st)
 				if r.Chance(0.5) {
 					// the same rule through the proposal entry points
@@ -271,6 +278,9 @@ func genLedgerWith(b ledgerBias) func(r *prng, seed uint64, tier string) *Plan {
 				st.Op, st.Kind = "inject", "valid"
 				if r.Chance(0.3) {
 					st.K = 1 + r.Intn(cfg.Nodes)
+				}
+				if r.Chance(0.35) {
+					st.Via = []string{"old-left", "old-right"}[r.Intn(2)]
 				}
 			}
 			if r.Chance(b.contractP) {
